@@ -240,6 +240,30 @@ func styles() []styleSpec {
 			w.sw, w.cap, w.join = 2, "round", "bevel"
 		}), "type selector rule overridden by the style attribute", nil},
 		{``, `g rect, g circle, g ellipse, g polygon, g polyline, g line, g path{fill:blue}`, ` fill="red"`, with(func(w *want) { w.fill = blue }), "descendant selector beats the inherited presentation attribute", nil},
+		{` class="hot"`, `.layer .hot{fill:blue}`, ` class="layer"`, with(func(w *want) { w.fill = blue }), "descendant selector with a class on both compounds", nil},
+		{` class="hot"`, `.layer .hot{fill:blue}`, ` class="other"`, d(), "descendant selector whose ancestor compound does not match", nil},
+		{` class="hot"`, `.hot .hot{fill:blue}`, ` class="layer"`, d(), "descendant selector needing the class on an ancestor too", nil},
+		{` class="hot"`, `#top .hot{fill:blue;stroke:red}`, ` id="top"`, with(func(w *want) { w.fill = blue; w.stroke = red }), "id compound then class compound", nil},
+		{` class="hot" id="s2"`, `g.layer .hot#s2{fill:blue}`, ` class="layer"`, with(func(w *want) { w.fill = blue }), "type+class compound then class+id compound", nil},
+		{` class="a b"`, `.a.b{fill:blue}`, ``, with(func(w *want) { w.fill = blue }), "two classes in one compound, both present", nil},
+		{` class="a"`, `.a.b{fill:blue}`, ``, d(), "two classes in one compound, one missing", nil},
+		{` class="hot"`, `[class=hot]{fill:blue}`, ``, with(func(w *want) { w.fill = blue }), "attribute selector", nil},
+		{` class="a"`, `.a{fill:red}.a{fill:blue}`, ``, with(func(w *want) { w.fill = blue }), "later rule of equal specificity wins", nil},
+		{` class="a"`, `.a{fill:red;stroke:blue}.b{fill:lime}.a{stroke:red}`, ``, with(func(w *want) { w.fill = red; w.stroke = red }), "three rules, the middle one for another class", nil},
+		{` fill="red"`, `.a{fill:blue}`, ` class="a"`, with(func(w *want) { w.fill = red }), "rule for the parent only: own presentation attribute beats the inherited value", nil},
+		{` id="s1"`, `#nope{fill:blue}`, ``, d(), "id rule for another id", nil},
+		{` class="hot"`, `#other .hot{fill:blue}`, ` id="top"`, d(), "id compound that matches no ancestor", nil},
+		{` class="hot"`, `g > .hot{fill:blue}`, ` class="layer"`, with(func(w *want) { w.fill = blue }), "child combinator, parent is a g", nil},
+		{` class="hot"`, `svg > .hot{fill:blue}`, ` class="layer"`, d(), "child combinator, parent is not the svg element", nil},
+		{` class="hot"`, `svg .hot{fill:blue}`, ` class="layer"`, with(func(w *want) { w.fill = blue }), "descendant of the svg element", nil},
+		{` class="hot x"`, `[class~=hot]{fill:blue}`, ``, with(func(w *want) { w.fill = blue }), "attribute selector ~=", nil},
+		{` class="hot x"`, `[class=hot]{fill:blue}`, ``, d(), "attribute selector = needs the whole value", nil},
+		{` class="hot"`, `[class="hot"]{fill:blue}`, ``, with(func(w *want) { w.fill = blue }), "attribute selector with a quoted value", nil},
+		{` id="s1"`, `[id]{fill:blue}`, ``, with(func(w *want) { w.fill = blue }), "attribute presence selector", nil},
+		{` id="s1" class="a"`, `#s1{fill:blue}.a{fill:red}`, ``, with(func(w *want) { w.fill = blue }), "id rule beats a later class rule (specificity)", nil},
+		{` class="a"`, `.a{fill:blue}rect,circle,ellipse,polygon,polyline,line,path{fill:red;stroke:red}`, ``, with(func(w *want) { w.fill = blue; w.stroke = red }), "class rule beats a later type rule, which still sets what the class rule leaves open", nil},
+		{` class="a"`, `g .a{fill:blue}.a{fill:red}`, ` stroke="none"`, with(func(w *want) { w.fill = blue }), "type+class selector beats a later class selector", nil},
+		{` class="a" id="s1"`, `.a,#s1{fill:blue}.a.a{fill:red}`, ``, with(func(w *want) { w.fill = blue }), "selector list takes the specificity of its most specific matching selector", nil},
 	}
 }
 
